@@ -721,6 +721,40 @@ fn cred_update_rotates(repo: &str) -> Result<bool, String> {
     }
 }
 
+/// The trim every local modify starts with: constants/mod.rs `#[cfg(not(test))] CHANGELOG_MAX_AGE`,
+/// `QueryServer::write`: `trim_cid = cid.sub_secs(CHANGELOG_MAX_AGE)?`, modify / batch_modify:
+/// `.invalidate(self.cid.clone(), &self.trim_cid)`, `Entry::invalidate` trims every value set first.
+fn write_trim(repo: &str) -> Result<i128, String> {
+    let consts = parse_file(repo, "server/lib/src/constants/mod.rs")?;
+    let mut age = None;
+    for it in &consts.items {
+        if let syn::Item::Const(c) = it {
+            if c.ident == "CHANGELOG_MAX_AGE" && c.attrs.iter().any(|a| nsp(a) == "#[cfg(not(test))]") {
+                age = Some(eval_int(&c.expr, &|_| None)?);
+            }
+        }
+    }
+    let age = age.ok_or("no `#[cfg(not(test))] const CHANGELOG_MAX_AGE` in constants/mod.rs")?;
+    let srv = parse_file(repo, "server/lib/src/server/mod.rs")?;
+    let w = find_fn(&srv, "QueryServer::write")?;
+    if nsp(&w.block).matches("lettrim_cid=cid.sub_secs(CHANGELOG_MAX_AGE)?;").count() != 1 {
+        return Err("QueryServer::write: `let trim_cid = cid.sub_secs(CHANGELOG_MAX_AGE)?;` not found".into());
+    }
+    for (file, f) in [("server/lib/src/server/modify.rs", "QueryServerWriteTransaction::modify_pre_apply"), ("server/lib/src/server/batch_modify.rs", "QueryServerWriteTransaction::batch_modify")] {
+        let ast = parse_file(repo, file)?;
+        let g = find_fn(&ast, f)?;
+        if nsp(&g.block).matches(".invalidate(self.cid.clone(),&self.trim_cid)").count() != 1 {
+            return Err(format!("{f}: candidates are no longer built with `.invalidate(self.cid.clone(), &self.trim_cid)`"));
+        }
+    }
+    let ent = parse_file(repo, "server/lib/src/entry.rs")?;
+    let inv = find_fn(&ent, "Entry::invalidate")?;
+    if !nsp(&inv.block).starts_with("{forvsinself.attrs.values_mut(){vs.trim(trim_cid);}") {
+        return Err("Entry::invalidate no longer starts with `for vs in self.attrs.values_mut() { vs.trim(trim_cid); }`".into());
+    }
+    Ok(age)
+}
+
 fn session_plugin_ops(repo: &str, out: &str) -> Result<String, String> {
     let cfile = parse_file(repo, "proto/src/constants.rs")?;
     let gexpr = find_const(&cfile, "AUTH_TOKEN_GRACE_WINDOW").ok_or("AUTH_TOKEN_GRACE_WINDOW not found in proto/src/constants.rs")?;
@@ -733,6 +767,7 @@ fn session_plugin_ops(repo: &str, out: &str) -> Result<String, String> {
     let (ins_src, ins) = valueset(repo)?;
     let c = check_fn(repo)?;
     let rot = cred_update_rotates(repo)?;
+    let max_age = write_trim(repo)?;
 
     let q = |s: &str| s.replace('`', "'");
     let mut b = String::from("namespace Kanidm.Gen.SessionPlugin\nopen Kanidm.SessionPlugin\n");
@@ -784,10 +819,11 @@ fn session_plugin_ops(repo: &str, out: &str) -> Result<String, String> {
         b += &format!("def {name} : Bool := {}\n", lb(*v));
     }
     b += &format!("/-- credential/mod.rs: every mutator a credential update can commit (`update_password`, `append_totp`, `remove_totp`, `update_backup_code`, `remove_backup_code`) builds the credential with `uuid: Uuid::new_v4()`; `set_password` goes through `update_password` -/\ndef credUpdateRotatesId : Bool := {}\n", lb(rot));
+    b += &format!("/-- constants/mod.rs `#[cfg(not(test))] CHANGELOG_MAX_AGE = 7 * 86400` (seconds); `QueryServer::write`: `let trim_cid = cid.sub_secs(CHANGELOG_MAX_AGE)?`; modify/batch_modify: `.invalidate(self.cid.clone(), &self.trim_cid)`; `Entry::invalidate` trims every value set first -/\ndef changelogMaxAgeSecs : Nat := {max_age}\n");
     b += "end Kanidm.Gen.SessionPlugin\n";
     let path = format!("{out}/SessionPluginOps.lean");
     let text = format!(
-        "-- GENERATED by vtranslate from proto/src/constants.rs, server/lib/src/plugins/session.rs, server/lib/src/plugins/mod.rs, server/lib/src/valueset/session.rs, server/lib/src/idm/server.rs, server/lib/src/credential/mod.rs, server/lib/src/idm/credupdatesession.rs. Do not edit: rewritten on every check run.\nimport KanidmModel.SessionPluginTypes\nset_option linter.unusedVariables false\n{b}"
+        "-- GENERATED by vtranslate from proto/src/constants.rs, server/lib/src/plugins/session.rs, server/lib/src/plugins/mod.rs, server/lib/src/valueset/session.rs, server/lib/src/idm/server.rs, server/lib/src/credential/mod.rs, server/lib/src/idm/credupdatesession.rs, server/lib/src/constants/mod.rs, server/lib/src/server/mod.rs, server/lib/src/server/modify.rs, server/lib/src/server/batch_modify.rs, server/lib/src/entry.rs. Do not edit: rewritten on every check run.\nimport KanidmModel.SessionPluginTypes\nset_option linter.unusedVariables false\n{b}"
     );
     if !std::fs::read_to_string(&path).map(|old| old == text).unwrap_or(false) {
         std::fs::write(&path, text).map_err(|e| format!("{path}: {e}"))?;
